@@ -35,6 +35,11 @@ def gen_cases(ctx):
     eg = G.ExprGen(rng, funcs=False)
     for _ in range(6000 if q else 1000000):
         cases.append((G.spell(rng, eg.expr()), G.rand_doc(rng, rng.choice([2, 3, 3, 4]))))
+    # chains of postfix operators over table-shaped data: how far a projection's right-hand side extends decides the result
+    core_postfix = [x for x in G.POSTFIXES if "(" not in x]
+    for _ in range(3000 if q else 300000):
+        e = rng.choice(["a", "b", "@.a", "*", "a[0]"]) + "".join(rng.choice(core_postfix) for _ in range(rng.randrange(2, 6)))
+        cases.append((e, G.json_to_enc(G.table_doc(rng, rng.choice([2, 3])))))
     # comparators on pairs of values that are equal / differ in exactly one number, string or member name
     for _ in range(1500 if q else 200000):
         a, b = G.near_pair(rng)
